@@ -61,6 +61,11 @@ func c01Check(c *C01Case) (msg string, class string) {
 	class = o.Class
 	switch o.Class {
 	case "ok", "syntax", "runtime", "json", "budget":
+		// a control-flow signal dressed up as one of the reported kinds is still the signal
+		switch strings.TrimSpace(o.Msg) {
+		case "next", "exit", "break", "continue", "return":
+			return fmt.Sprintf("the internal control-flow signal %q surfaces as a %s error", o.Msg, o.Class), class
+		}
 	case "panic":
 		return "internal panic: " + o.Panic + "\n" + firstN(o.Stack, 1200), class
 	default:
@@ -135,6 +140,46 @@ func c01Check(c *C01Case) (msg string, class string) {
 		}
 	}
 	return "", class
+}
+
+// ---- G5: every statement kind evaluated at, just below and just above the nesting limit -------------
+
+type C01Limit struct {
+	Stmt   string `json:"stmt"`
+	Depth  int    `json:"depth"`
+	Blocks int    `json:"blocks"`
+	Extra  int    `json:"extra,omitempty"` // further expression levels around the call of g()
+}
+
+var c01LimitStmts = []string{"return", "return 1", "print 1", "exit", "next", "x = 1", "x++", "if (1) { }", "if (0) { } else { }", "while (0) { }", "while (1) { break }",
+	"for (i = 0; i < 0; i++) { }", "for (v in []) { }", "for (v in [1]) { continue }", "match (1) { 1 => { } }", "x = match (1) { y => y }", "printf(\"\")", "x = [1][0]", "x = {k: 1}.k"}
+
+func c01LimitProgram(c *C01Limit) string {
+	rep := strings.Repeat
+	return "function g() { " + c.Stmt + " }\n" +
+		"function f(n) { if (n > 0) { " + rep("if (1) { ", 13) + "return f(n - 1)" + rep(" }", 13) + " }\n" +
+		rep("if (1) { ", c.Blocks) + "x = " + rep("0 + (", c.Extra) + "g()" + rep(")", c.Extra) + rep(" }", c.Blocks) + "\nreturn 0 }\n" +
+		"BEGIN { print \"pre\"\nf(" + fmt.Sprint(c.Depth) + ")\nprint \"done\" }"
+}
+
+// c01LimitCheck: the run completes or stops with a runtime error - whatever statement the
+// limit is reached at.
+func c01LimitCheck(c *C01Limit) (string, string) {
+	o := run.InProc(c01LimitProgram(c), nil, nil, run.Opts{Budget: 2_000_000_000})
+	switch o.Class {
+	case "ok", "runtime":
+		switch strings.TrimSpace(o.Msg) {
+		case "next", "exit", "break", "continue", "return":
+			return fmt.Sprintf("the internal control-flow signal %q surfaces as an error", o.Msg), o.Class
+		}
+		if !strings.HasPrefix(string(o.Stdout), "pre\n") {
+			return fmt.Sprintf("output before the limit is missing: %q", clip(string(o.Stdout))), o.Class
+		}
+		return "", o.Class
+	case "panic":
+		return "internal panic: " + o.Panic, o.Class
+	}
+	return fmt.Sprintf("outcome %s (%s)", o.Class, o.Msg), o.Class
 }
 
 // ---- flat, long program texts (through the binary only: a stack overflow cannot be recovered from) ----
@@ -457,6 +502,16 @@ func TestC01(t *testing.T) {
 		"G1: programs from seven structured generators, rendered to tokens and hit by 0-3 mutations (delete / duplicate / swap a token, replace a token by a keyword, splice a control keyword as a statement at any statement boundary regardless of context, insert an arbitrary byte or punctuation, truncate), with 0-2 selectors from a pool that includes match blocks executing exit / next / print, and inputs that are the generator's own document or hostile streams (empty, whitespace, truncated, garbage, JSONL, stray brackets, huge numbers, invalid UTF-8). G2 (complete): {next, exit, break, continue, return, return 5} x {BEGIN, END, BEGINFILE, ENDFILE, pattern body, pattern expression via a function, function body, match expression body via a function, match block body, a match block in a while condition / in each clause of a for header / in a for-in iterable / in a method argument, selector via a match block} x {bare, inside while / for / for-in / if} x {no input value, two values, two documents}, each also through the binary with and without -o -. G3: arbitrary byte strings, byte edits of G1 renderings, and hostile constants (nests of ( [ { ! - match to depth 20000, runaway recursion and doubling loops under the cost budget, limits, cyclic values, pathological regexes). G4: every byte prefix of a program text (up to 400 bytes; hand-written texts full of dotted numbers, and random layouts of the C13 generators) as a program and, up to 80 bytes, as a selector. Oracle: the error returned by lang.EvalProgram is nil, SyntaxError, RuntimeError or JsonError; nothing is recovered by recover(); the process survives (in-flight file protocol); every error satisfies the C12 line invariant; sampled cases through the binary: exit status 0 or 1, stderr non-empty iff 1, no panic / fatal error / signal. A run stopped by the cost budget (200k units, verif hook) is inconclusive and counted. Non-trivial: the program parsed and evaluated something, or failed to parse beyond its first token, or is a G2 case. distinct = distinct (program, selectors, input).")
 	defer rec.Finish()
 	rec.Assume("the cost-budget hook (build tag verif) only ever stops a run early; it adds no behaviour")
+	rec.Replayer("nesting-limit", func(raw json.RawMessage) error {
+		var c C01Limit
+		if err := json.Unmarshal(raw, &c); err != nil {
+			return err
+		}
+		if m, _ := c01LimitCheck(&c); m != "" {
+			return fmt.Errorf("%s", m)
+		}
+		return nil
+	})
 	rec.Replayer("flat-text", func(raw json.RawMessage) error {
 		var c C01Flat
 		if err := json.Unmarshal(raw, &c); err != nil {
@@ -507,6 +562,48 @@ func TestC01(t *testing.T) {
 		}
 	}
 	rec.Exhaustive("G2: control keyword x place x wrapper x input (complete)")
+	// G5: recursion with 14 nested blocks per call down to the deepest depth that still works, then
+	// 0-24 more blocks around a call of g(), whose body is one statement of every kind: the nesting
+	// limit is reached exactly at that statement for some number of blocks
+	if 1%nshards == shard {
+		lo, hi := 1, 4090
+		for lo < hi {
+			mid := (lo + hi + 1) / 2
+			if _, cl := c01LimitCheck(&C01Limit{Stmt: "x = 1", Depth: mid}); cl == "ok" {
+				lo = mid
+			} else {
+				hi = mid - 1
+			}
+		}
+		for _, st := range c01LimitStmts {
+			flips, refused := 0, 0
+			prev := ""
+			for bb := 0; bb <= 49; bb++ {
+				// (blocks cost two levels each, an operand one: every level is reached)
+				b := bb / 2
+				c := &C01Limit{Stmt: st, Depth: lo, Blocks: b, Extra: bb % 2}
+				msg, cl := c01LimitCheck(c)
+				if prev != "" && cl != prev {
+					flips++
+				}
+				prev = cl
+				if cl == "runtime" {
+					refused++
+					if refused > 6 {
+						break // well beyond the limit: nothing changes any more
+					}
+				}
+				rec.Case(fmt.Sprintf("limit %q %d %d %d", st, lo, b, c.Extra), true, "G5-statement-at-the-nesting-limit")
+				if msg != "" {
+					rec.Violation("nesting-limit", c, c01LimitProgram(c), fmt.Sprintf("statement %q at recursion depth %d inside %d more blocks (+%d): %s", st, lo, b, c.Extra, msg))
+					break
+				}
+			}
+			if flips == 0 {
+				rec.Label("G5-limit-not-crossed")
+			}
+		}
+	}
 	// G4: flat texts (blank lines, comment lines, statements, rules, elements, ... repeated
 	// thousands of times) up to the 64 KiB that C01 speaks of, through the binary
 	if run.CLIBinary() != "" {
